@@ -61,8 +61,9 @@ def _retarget(t, bmap, unwind_to):
     return t
 
 
-def inline(prog, fn, depth=2, accept=None, _stack=()):
-    """-> mir.Fn with eligible callees spliced in (or `fn` itself when nothing was inlined)"""
+def inline(prog, fn, depth=2, accept=None, _stack=(), resolve=None):
+    """-> mir.Fn with eligible callees spliced in (or `fn` itself when nothing was inlined).
+    `resolve(terminator) -> Fn|None` overrides the callee look-up (used for the combinator reference bodies)"""
     accept = accept or (lambda caller, callee: callee.crate == caller.crate)
     rec = dict(fn.rec)
     blocks = copy.deepcopy(fn.rec["blocks"])
@@ -75,14 +76,14 @@ def inline(prog, fn, depth=2, accept=None, _stack=()):
         b = blocks[bi]
         t = b["t"]
         callee_key = t.get("callee") if t["k"] == "call" else None
-        callee = prog.fns.get(callee_key) if callee_key else None
+        callee = (resolve(t) if resolve is not None else prog.fns.get(callee_key)) if callee_key else None
         ok = (callee is not None and not b["cleanup"] and callee.key != fn.key and callee.key not in _stack and depth > 0
               and not callee.coroutine and callee.blocks and len(t.get("args", [])) == callee.argc and accept(fn, callee)
               and len(callee.blocks) + len(blocks) < MAX_BLOCKS)
         if not ok:
             bi += 1
             continue
-        sub = inline(prog, callee, depth - 1, accept, _stack + (fn.key,)) if depth > 1 else callee
+        sub = inline(prog, callee, depth - 1, accept, _stack + (fn.key,), resolve) if depth > 1 else callee
         lbase = len(locals_)
         bbase = len(blocks)
         locals_ += list(sub.rec["locals"])
@@ -122,9 +123,10 @@ def inline(prog, fn, depth=2, accept=None, _stack=()):
     return out
 
 
-def containing(prog, callee_rx, depth=2):
-    """accept-filter: inline a helper only if it (or a local helper it calls, within `depth`) contains a call matching
-    callee_rx -- i.e. only the helpers into which the statements a rule looks for may have been moved"""
+def containing(prog, callee_rx, depth=2, closures=False):
+    """accept-filter: inline a helper only if it (or a local helper it calls, within `depth`; with closures=True also a
+    closure literal written in it) contains a call matching callee_rx -- i.e. only the helpers into which the statements
+    a rule looks for may have been moved"""
     import re
     rx = re.compile(callee_rx)
     memo = {}
@@ -135,7 +137,12 @@ def containing(prog, callee_rx, depth=2):
             return memo[k]
         memo[k] = False
         r = False
-        for c in fn.calls():
+        if closures and d > 0:
+            for g in prog.descendants(fn.key):
+                if g.key != fn.key and has(g, 0):
+                    r = True
+                    break
+        for c in ([] if r else fn.calls()):
             if rx.search(c.callee or "") or rx.search(c.decl or ""):
                 r = True
                 break
@@ -272,7 +279,13 @@ def inline_closure_calls(prog, fn, rounds=2):
             for name, place in body.rec.get("vars", {}).items():
                 vars_["%s~%d" % (name, lbase)] = _remap(place, lmap, "")
             b = blocks[bi]
-            b["st"].append({"k": "=", "p": [lmap(1), []], "r": ["use", copy.deepcopy(args[0])], "sp": t.get("sp"), "inl": body.key})
+            env_ty = body.rec["locals"][1] if len(body.rec["locals"]) > 1 else ""
+            arg_ty = cur.rec["locals"][args[0][1][0]] if not args[0][1][1] and args[0][1][0] < len(cur.rec["locals"]) else "&"
+            if env_ty.startswith("&") and not (arg_ty or "").startswith("&"):
+                # a by-value call (FnOnce::call_once) of a closure whose body takes its environment by reference
+                b["st"].append({"k": "=", "p": [lmap(1), []], "r": ["ref", "mut" if env_ty.startswith("&mut") else "shared", copy.deepcopy(args[0][1])], "sp": t.get("sp"), "inl": body.key})
+            else:
+                b["st"].append({"k": "=", "p": [lmap(1), []], "r": ["use", copy.deepcopy(args[0])], "sp": t.get("sp"), "inl": body.key})
             tup = args[1]
             for i in range(n):
                 if tup[0] in ("c", "m"):
@@ -302,3 +315,54 @@ def inline_closure_calls(prog, fn, rounds=2):
         rec["inlined"] = list(cur.rec.get("inlined", [])) + done
         cur = Fn(rec)
     return cur
+
+
+# std combinator (declared path) -> reference body in engine/shims
+COMBINATORS = {
+    r"^core::option::Option::<T>::map$": "option_map",
+    r"^core::option::Option::<T>::and_then$": "option_and_then",
+    r"^core::option::Option::<T>::filter$": "option_filter",
+    r"^core::option::Option::<T>::is_some_and$": "option_is_some_and",
+    r"^core::option::Option::<T>::is_none_or$": "option_is_none_or",
+    r"^core::option::Option::<T>::map_or$": "option_map_or",
+    r"^core::option::Option::<T>::map_or_else$": "option_map_or_else",
+    r"^core::option::Option::<T>::ok_or_else$": "option_ok_or_else",
+    r"^core::option::Option::<T>::unwrap_or_else$": "option_unwrap_or_else",
+    r"^core::option::Option::<T>::or_else$": "option_or_else",
+    r"^core::result::Result::<T, E>::map$": "result_map",
+    r"^core::result::Result::<T, E>::map_err$": "result_map_err",
+    r"^core::result::Result::<T, E>::and_then$": "result_and_then",
+    r"^core::result::Result::<T, E>::unwrap_or_else$": "result_unwrap_or_else",
+    r"^core::result::Result::<T, E>::is_ok_and$": "result_is_ok_and",
+    r"^core::iter::traits::iterator::Iterator::find_map$": "iter_find_map",
+    r"^core::iter::traits::iterator::Iterator::find$": "iter_find",
+    r"^core::iter::traits::iterator::Iterator::any$": "iter_any",
+    r"^core::iter::traits::iterator::Iterator::all$": "iter_all",
+    r"^core::iter::traits::iterator::Iterator::position$": "iter_position",
+    r"^core::iter::traits::iterator::Iterator::for_each$": "iter_for_each",
+    r"^core::iter::traits::iterator::Iterator::fold$": "iter_fold",
+}
+
+
+def expand_combinators(prog, fn, only=None):
+    """Replace calls of std's closure-taking combinators by their reference bodies (engine/shims): afterwards the closure
+    argument is called by an ordinary `call_once/call_mut` that inline_closure_calls resolves. Only calls one of whose
+    arguments is a closure literal in this body are expanded. -> mir.Fn (or fn)"""
+    import re
+    shims = prog.shims()
+    table = [(re.compile(rx), shims[name]) for rx, name in COMBINATORS.items() if name in shims and (only is None or name in only)]
+
+    def resolve(t):
+        d = t.get("decl") or t.get("callee") or ""
+        for rx, body in table:
+            if rx.search(d):
+                # at least one argument is a closure literal (or a reference to one) of this body
+                for a in t.get("args", []):
+                    if a[0] in ("c", "m"):
+                        st = fn.origin(a)
+                        if st and st[-1][0] == "agg" and st[-1][1][1].get("k") == "closure":
+                            return body
+                return None
+        return None
+
+    return inline(prog, fn, 1, lambda caller, callee: True, (), resolve)
